@@ -328,13 +328,13 @@ fn rename(s: &str, pre: &str) -> String
 enum Place { Anywhere, AfterAddr, BeforeAddr }
 
 /// (class, statement text, where it may go)
-fn invalid_stmt(g: &mut G) -> (&'static str, String, Place)
+fn invalid_stmt_basic(g: &mut G, which: u64) -> (&'static str, String, Place)
 {
 	use Place::*;
 	let rng = &mut g.rng;
 	let regname = |rng: &mut Rng| rng.pick(&["R0", "r1", "R7", "R8", "r12", "R13", "SP", "sp", "LR", "lr", "PC", "pc", "R15", "Sp"]).to_string();
 	let dirs1 = [".addr", ".align", ".du8", ".du16", ".du32", ".dhex", ".dstr", ".dfile", ".global", ".import", ".export", ".include"];
-	match rng.below(18)
+	match which
 	{
 		0 => ("reg_const", format!(".const {}, {};", regname(rng), rng.below(100)), Anywhere),
 		1 => ("reg_label", format!("{}:", regname(rng)), AfterAddr),
@@ -385,15 +385,119 @@ fn invalid_stmt(g: &mut G) -> (&'static str, String, Place)
 	}
 }
 
-/// inserts an invalid construct into a copy of `base`; returns (program, class, file index, statement index of the expected first diagnostic)
-fn mutate_stmt(g: &mut G, base: &Prog) -> Option<(Prog, &'static str, usize, usize)>
+/// an invalid construct: the statements to insert (in this order, adjacent), which of them gets the first diagnostic,
+/// whether a diagnostic is certain (`expect`), and for `never_valued_import` the declaration that goes into the root
+struct Inv { class: &'static str, parts: Vec<String>, bad: usize, place: Place, expect: bool, root_decl: Option<String> }
+
+/// directives that need the value at once (an open name is an error there and then)
+const IMM_SLOTS: [&str; 4] = [".align {}", ".addr {}", ".const X9, {}", ".align ({}) & 7"];
+/// further spellings of operand positions (exprgen::TEMPL has one spelling per position)
+const EXTRA_SLOTS: [&str; 16] = ["LDRSB R0, [R1 + ({})]", "LDRSH R2, [R3 + ({})]", "ldrsb r4, [({}) + r5]", "CMP R7, {}", "movs r0, {}", "ldr r0, [r1 + ({})]", "str r3, [sp + ({})]", "b {}", "bl {}", "RSBS R0, R1, {}", "beq {}", "adr r7, {}", "LDR R7, {}",
+	"ldrh r1, [r2 + ({})]", "strb r1, [({}) + r2]", "udf.w {}"];
+/// ill-typed shapes: # = a register or a string, $ = a constant or a declared name that is valued later
+const ILL_SHAPES: [&str; 24] = ["8 / (# / 2)", "(# & 3) & 5", "# + 1", "1 + #", "-#", "!#", "# * 0", "(# + 4) - 4", "# - #", "# / #", "1 << #", "# % 3", "3 % #", "2 + -(# + 3)",
+	"16 / 2 / (# / 4)", "(# ^ 5) ^ 5", "(# | 1) | 2", "4 * (# * 2)", "# << 1 >> 1", "$ / (# / $)", "($ + #) - $", "$ - (# - $)", "(# * $) * $", "-(# - $) + $"];
+
+fn pick_slot(rng: &mut Rng) -> (String, bool)
 {
-	let (class, text, place) = invalid_stmt(g);
+	match rng.below(8)
+	{
+		0 => (rng.pick(&IMM_SLOTS).to_string(), true),
+		1 => (rng.pick(&EXTRA_SLOTS).to_string(), false),
+		_ => (TEMPL[rng.below(TEMPL.len() as u64) as usize].text.to_string(), false),
+	}
+}
+
+/// an expression of any shape (depth 0-4) that mentions `name`
+fn expr_over(rng: &mut Rng, names: &[(Ex, Iv)], must: &str) -> String
+{
+	let depth = *rng.pick(&[0u32, 0, 1, 1, 2, 3, 4]);
+	let (e, _) = exprgen::gen_with(rng, depth, &Leaves{names}, &[must.to_string()]);
+	let minimal = rng.chance(1, 2);
+	exprgen::show(&e, rng, minimal)
+}
+
+fn invalid_stmt(g: &mut G) -> Inv
+{
+	let k = g.rng.below(27);
+	if k < 18
+	{
+		let (class, text, place) = invalid_stmt_basic(g, k);
+		let parts: Vec<String> = text.split('\n').map(|s| s.to_string()).collect();
+		let bad = parts.len() - 1;
+		return Inv{class, parts, bad, place, expect: true, root_decl: None};
+	}
+	let rng = &mut g.rng;
+	let (slot, immediate) = pick_slot(rng);
+	if k < 24
+	{
+		// a name that never gets a value, in any operand position, inside an expression of any shape
+		let which = rng.below(4);
+		let name = if which < 2 { "NV9" } else { "UNDEF9" };
+		let names = vec![(Ex::Name(name.to_string()), (1i128, 0xFFFFi128))];
+		let stmt = format!("{};", slot.replace("{}", &expr_over(rng, &names, name)));
+		return match which
+		{
+			// declared, never valued: the declaration is reported at the end of the file, before the statements that wait for the value
+			0 => Inv{class: "never_valued", parts: vec![".global NV9;".into(), stmt], bad: if immediate { 1 } else { 0 }, place: Place::AfterAddr, expect: true, root_decl: None},
+			// the same through an included file: declared in the root, imported and used in the file
+			1 => Inv{class: "never_valued_import", parts: vec![".import NV9;".into(), stmt], bad: if immediate { 1 } else { 0 }, place: Place::AfterAddr, expect: true, root_decl: Some(".global NV9;".into())},
+			_ => Inv{class: "undefined", parts: vec![stmt], bad: 0, place: Place::AfterAddr, expect: true, root_decl: None},
+		};
+	}
+	// ill-typed operand: a register or a string inside arithmetic
+	let with_string = rng.chance(1, 4);
+	let raw = if with_string { rng.pick(&["\"s\"", "\"\"", "\"ab\""]).to_string() } else { rng.pick(&["R0", "r1", "R7", "R8", "r12", "SP", "sp", "LR", "PC", "R15"]).to_string() };
+	let deferred = rng.chance(1, 3);
+	let text = if rng.chance(1, 3)
+	{
+		let shape = rng.pick(&ILL_SHAPES).to_string().replace('#', &raw);
+		let mut out = String::new();
+		for c in shape.chars() { if c == '$' { if deferred && rng.chance(1, 2) { out.push_str("IT9"); } else { out.push_str(&format!("{}", 2 + rng.below(30))); } } else { out.push(c); } }
+		out
+	}
+	else
+	{
+		let mut names: Vec<(Ex, Iv)> = vec![(Ex::Raw(raw.clone()), (1, 0xFFFF)); 3];
+		if deferred { names.push((Ex::Name("IT9".into()), (24, 24))); names.push((Ex::Name("IT9".into()), (24, 24))); }
+		let depth = 1 + rng.below(4) as u32;
+		let (e, _) = exprgen::gen_with(rng, depth, &Leaves{names: &names}, &[raw.clone()]);
+		let minimal = rng.chance(1, 2);
+		exprgen::show(&e, rng, minimal)
+	};
+	let stmt = format!("{};", slot.replace("{}", &text));
+	// a diagnostic is certain for a string anywhere and for a register in a directive (neither can become a constant);
+	// an instruction operand like `R1 + 0` may legitimately reduce to the register itself
+	let expect = with_string || slot.starts_with('.');
+	let class = if expect { "ill_typed" } else { "ill_typed_free" };
+	if text.contains("IT9") { Inv{class, parts: vec![".global IT9;".into(), stmt, ".const IT9, 24;".into()], bad: 1, place: Place::AfterAddr, expect, root_decl: None} }
+	else { Inv{class, parts: vec![stmt], bad: 0, place: Place::AfterAddr, expect, root_decl: None} }
+}
+
+/// inserts an invalid construct into a copy of `base`; returns (program, class, file index, statement index of the expected first diagnostic, diagnostic certain)
+fn mutate_stmt(g: &mut G, base: &Prog) -> Option<(Prog, &'static str, usize, usize, bool)>
+{
+	let inv = invalid_stmt(g);
+	let (class, place) = (inv.class, inv.place);
 	let mut p = base.clone();
+	// files included by the root itself (for a declaration in the root that an included file imports)
+	let direct: Vec<usize> = (1..p.files.len()).filter(|&i| p.files[0].1.iter().any(|s| *s == format!(".include \"{}\";", p.files[i].0))).collect();
+	let import_case = inv.root_decl.is_some() && !direct.is_empty();
 	// writes before .addr only make sense in the root; everything else may also go into an included file
-	let fi = if place == Place::BeforeAddr || p.files.len() == 1 || g.rng.chance(1, 2) { 0 } else { 1 + g.rng.below(p.files.len() as u64 - 1) as usize };
+	let fi = if import_case { *g.rng.pick(&direct) }
+		else if place == Place::BeforeAddr || p.files.len() == 1 || g.rng.chance(1, 2) { 0 } else { 1 + g.rng.below(p.files.len() as u64 - 1) as usize };
+	let first_addr_root = p.files[0].1.iter().position(|s| s.starts_with(".addr"))?;
+	let mut root_pos: Option<usize> = None;
+	if import_case
+	{
+		let inc = p.files[0].1.iter().position(|s| *s == format!(".include \"{}\";", p.files[fi].0))?;
+		let mut at = g.rng.below(inc as u64 + 1) as usize;
+		while at > 0 && p.files[0].1[at - 1].starts_with(".align") { at -= 1; }
+		p.files[0].1.insert(at, inv.root_decl.clone().unwrap());
+		root_pos = Some(at);
+	}
 	let stmts = &mut p.files[fi].1;
-	let first_addr = if fi == 0 { stmts.iter().position(|s| s.starts_with(".addr"))? } else { 0 };
+	let first_addr = if fi == 0 { first_addr_root } else { 0 };
 	if class == "duplicate"
 	{
 		// define an existing label / constant of this file a second time; the later of the two statements is the invalid one
@@ -409,7 +513,7 @@ fn mutate_stmt(g: &mut G, base: &Prog) -> Option<(Prog, &'static str, usize, usi
 		stmts.insert(at, dup);
 		// a label that moves code may invalidate nothing before it; the expected diagnostic is at the later definition
 		let bad = if at <= d { d + 1 } else { at };
-		return Some((p, class, fi, bad));
+		return Some((p, class, fi, bad, true));
 	}
 	let lo = match place { Place::BeforeAddr => 0, Place::AfterAddr => if fi == 0 { first_addr + 1 } else { 0 }, Place::Anywhere => 0 };
 	let hi = match place { Place::BeforeAddr => first_addr, _ => stmts.len() };
@@ -418,11 +522,17 @@ fn mutate_stmt(g: &mut G, base: &Prog) -> Option<(Prog, &'static str, usize, usi
 	while at > lo && stmts[at - 1].starts_with(".align") { at -= 1; }
 	let mut ins: Vec<String> = Vec::new();
 	if class == "branch_range" { ins.push(".align 4;".into()); ins.push("HERE9:".into()); }
-	let parts: Vec<&str> = text.split('\n').collect();
+	let lead = ins.len();
+	// without an included file to import into, the declaration stands in the file itself
+	let parts: Vec<String> = if inv.root_decl.is_some() && !import_case { let mut v = inv.parts.clone(); v[0] = inv.root_decl.clone().unwrap(); v } else { inv.parts.clone() };
 	for s in &parts { ins.push(s.to_string()); }
-	let bad = at + ins.len() - 1;
+	let bad = at + lead + inv.bad;
 	for (k, s) in ins.into_iter().enumerate() { stmts.insert(at + k, s); }
-	Some((p, class, fi, bad))
+	match root_pos
+	{
+		Some(r) if inv.bad == 0 => Some((p, class, 0, r, inv.expect)),
+		_ => Some((p, class, fi, bad, inv.expect)),
+	}
 }
 
 // ------------------------------------------------------------------------------------------------ (c) byte level
@@ -600,13 +710,13 @@ fn main()
 		// (b)
 		for _ in 0..n_mut
 		{
-			if let Some((p, class, fi, bad)) = mutate_stmt(&mut g, &base)
+			if let Some((p, class, fi, bad, expect)) = mutate_stmt(&mut g, &base)
 			{
 				let style = g.rng.below(6);
 				let (proj, poss) = prog_case(&p, &mut g.rng, style);
 				let (l, c) = poss[fi][bad];
-				let mut case = format!("{} EXPECT-DIAG CLASS {}", case_text(&proj), class);
-				if base_ok { case.push_str(&format!(" POS {} {} {}", hex_bytes(p.files[fi].0.as_bytes()), l, c)); }
+				let mut case = format!("{} {} CLASS {}", case_text(&proj), if expect { "EXPECT-DIAG" } else { "ILLTYPED" }, class);
+				if base_ok && expect { case.push_str(&format!(" POS {} {} {}", hex_bytes(p.files[fi].0.as_bytes()), l, c)); }
 				emit(case, &mut out);
 				pool.push(proj);
 			}
